@@ -96,11 +96,17 @@ type ZodFormattedError map[string]any
 
 // FormatError formats a ZodError into a structured error object.
 func FormatError(zodErr *ZodError) ZodFormattedError {
+	if zodErr == nil {
+		return FormatErrorWithMapper(nil, nil)
+	}
 	return FormatErrorWithMapper(zodErr, defaultIssueMapper(zodErr.formatter))
 }
 
 // FormatErrorWithMapper formats a ZodError with custom message mapping.
 func FormatErrorWithMapper(zodErr *ZodError, mapper func(ZodIssue) string) ZodFormattedError {
+	if zodErr == nil {
+		zodErr = &ZodError{} // a nil error has no issues
+	}
 	fieldErrors := make(ZodFormattedError)
 	fieldErrors["_errors"] = []string{}
 
@@ -192,11 +198,17 @@ type FlattenedError struct {
 
 // TreeifyError formats a ZodError into a tree structure.
 func TreeifyError(zodErr *ZodError) *ZodErrorTree {
+	if zodErr == nil {
+		return TreeifyErrorWithMapper(nil, nil)
+	}
 	return TreeifyErrorWithMapper(zodErr, defaultIssueMapper(zodErr.formatter))
 }
 
 // TreeifyErrorWithMapper converts a ZodError into a tree structure with custom message mapping.
 func TreeifyErrorWithMapper(zodErr *ZodError, mapper func(ZodIssue) string) *ZodErrorTree {
+	if zodErr == nil {
+		zodErr = &ZodError{} // a nil error has no issues
+	}
 	issueCount := len(zodErr.Issues)
 	tree := &ZodErrorTree{
 		Errors:     make([]string, 0, max(issueCount/4, 2)),
@@ -255,11 +267,17 @@ func processIssueInTree(issue ZodIssue, tree *ZodErrorTree, mapper func(ZodIssue
 
 // FlattenError flattens a ZodError into form and field errors.
 func FlattenError(zodErr *ZodError) *FlattenedError {
+	if zodErr == nil {
+		return FlattenErrorWithMapper(nil, nil)
+	}
 	return FlattenErrorWithMapper(zodErr, defaultIssueMapper(zodErr.formatter))
 }
 
 // FlattenErrorWithMapper flattens a ZodError into form and field errors with custom message mapping.
 func FlattenErrorWithMapper(zodErr *ZodError, mapper func(ZodIssue) string) *FlattenedError {
+	if zodErr == nil {
+		zodErr = &ZodError{} // a nil error has no issues
+	}
 	issueCount := len(zodErr.Issues)
 	flattened := &FlattenedError{
 		FormErrors:  make([]string, 0, max(issueCount/4, 2)),
@@ -296,6 +314,9 @@ func ToDotPath(path []any) string {
 
 // PrettifyError formats a ZodError into a readable string using its formatter.
 func PrettifyError(zodErr *ZodError) string {
+	if zodErr == nil {
+		return PrettifyErrorWithFormatter(nil, nil)
+	}
 	return PrettifyErrorWithFormatter(zodErr, zodErr.formatter)
 }
 
